@@ -51,6 +51,20 @@ def r08_1(ctx):
                 exp = "arg" if same else f"Conv(({'s' if sp else 'u'},Wp),arg)"
                 got = {clean(lab(box["a"][0])) if o.kind != "raise" else "RAISE" for o in outs}
                 ctx.check(f"cast_arg_list[arg {'s' if sa else 'u'}, param {'s' if sp else 'u'}, Warg{order}Wparam]", got == {exp} and len(outs) == 1, exp, str(sorted(got)), fn_where(idx, fi))
+    # a literal argument is converted like any other argument (through the conversion helper, not by a folder of the call's own)
+    for val, (sa_, wa_), (sp_, wp_) in ((-1, (True, 32), (True, 64)), (5, (True, 32), (True, 64)), (-1, (True, 32), (False, 64)), (0x80000000, (False, 32), (True, 64))):
+        r = Runner(idx)
+        box = {}
+
+        def args_l(val=val, sa_=sa_, wa_=wa_, sp_=sp_, wp_=wp_):
+            n_ = AObj("Number", {"value": val, "value_type": vt("tl", sa_, wa_), "name": "lit", "isa_name": None, "inlined": True, "reads": 0}, label="lit")
+            a = [n_]
+            box["a"] = a
+            return [a, [vt("p", sp_, wp_)]]
+        fi, outs = r.run("cast_arg_list", args_l, args_list=True)
+        got = sorted({clean(lab(box["a"][0])) if o.kind != "raise" else "RAISE" for o in outs})
+        exp = [f"Conv(({'s' if sp_ else 'u'},{wp_}),lit)"]
+        ctx.check(f"cast_arg_list[literal {val} of ({'s' if sa_ else 'u'},{wa_}) to a ({'s' if sp_ else 'u'},{wp_}) parameter]", got == exp, exp[0], str(got), fn_where(idx, fi))
     # pass-through kinds
     r = Runner(idx)
     box = {}
@@ -305,7 +319,7 @@ def routine_prefix_checks(ctx):
         # the prefix expression is evaluated for routine names that differ only slightly: the prefixes must be pairwise different
         # (also for names that differ in case only), continue the default prefix with a non-digit and end with a non-digit
         # (default names are <default><digits>, routine names <prefix><digits>: the counter is digits only, so names cannot coincide)
-        probes = ["clz32", "CLZ32", "Clz32", "sat_inc", "SAT_INC", "a", "a1", "a_1", "a1_"]
+        probes = ["clz32", "CLZ32", "Clz32", "sat_inc", "SAT_INC", "a", "a1", "a_1", "a1_", "lead_zeros_lo", "lead_zeros_both", "revbit16", "revbit16_extra", "a_very_long_routine_name_1", "a_very_long_routine_name_2"]
         prefixes = {}
         problems = []
         for nm in probes:
